@@ -25,6 +25,7 @@ CONSTANTS
     MaxFaults,   \* how many transport faults the environment may inject
     Serve,       \* "full" = model serveChannel + read loop from the start; "pre" = channel already active, reader parked in Read
     Reads,       \* number of transport reads that succeed before the peer goes silent
+    PCancel,     \* TRUE = the environment may cancel the parent context (bootstrap shutdown) once
     FixClosed,   \* TRUE = entry points test the closed flag, close error never nil (C11 repair)
     FixDrain     \* TRUE = Close takes the sender role and drains (C06 repair)
 
@@ -190,7 +191,7 @@ MEnter(w) ==
     /\ UNCHANGED <<stack, queue, waitq, running, closed, closeErr, werr, ctxDone, tclosed,
                    tcloses, tlog, flushed, batch, nexts, polls, carg, inactives, actives,
                    reads, readsLeft, rinflight, faults, cancelled, acc, accAtClose, closeRet, drainedOK,
-                   mutex, mwait>>
+                   mutex, mwait, fatal>>
     /\ IF closed = 0
        THEN /\ NoFinish /\ pc' = PcAfter(One(w, "w.enter"))
        ELSE IF ctxDone
@@ -314,6 +315,21 @@ CtxCancel(w) ==
        THEN /\ waitq' = SelectSeq(waitq, LAMBDA x : x # w)
             /\ FinishAll(One(w, "ctx")) /\ pc' = PcAfter(One(w, NextWPc(w)))
        ELSE /\ UNCHANGED <<waitq, pc>> /\ NoFinish
+
+\* environment: the parent of the channel context is cancelled (Bootstrap.Shutdown, listener or
+\* user context) without any Close call: waiting writers return, the read loop notices at its next check
+ParentCancel ==
+    /\ PCancel /\ ~ctxDone
+    /\ ctxDone' = TRUE
+    /\ LET ws == Range(waitq) \cup {w \in Writers : pc[w] = "msg.wait"}
+           fin == [w \in ws |-> CloseRes]
+       IN /\ FinishAll(fin)
+          /\ pc' = PcAfter(FinPcs(fin))
+    /\ waitq' = <<>>
+    /\ UNCHANGED <<stack, queue, running, closed, closeErr, werr, tclosed, tcloses, tlog,
+                   flushed, batch, nexts, mutex, mwait, polls, carg, inactives, actives, reads,
+                   readsLeft, rinflight, faults, cancelled, acc, begun, before, accAtClose, closeRet,
+                   lateBegun, drainedOK, fatal>>
 
 -----------------------------------------------------------------------------
 (* The sender routine (writeOnce), run by sender incarnations and - with     *)
@@ -622,7 +638,7 @@ Fault(p) ==
     \/ (p \notin Writers /\ (TWritevFail(p) \/ TSFlushFail(p)))
     \/ (p = "R" /\ TReadFail)
 
-Next == \E p \in Procs : Step(p) \/ Fault(p) \/ (p \in Writers /\ CtxCancel(p))
+Next == (\E p \in Procs : Step(p) \/ Fault(p) \/ (p \in Writers /\ CtxCancel(p))) \/ ParentCancel
 
 Spec == Init /\ [][Next]_vars
 
@@ -664,7 +680,7 @@ C02_Responsible ==
 Quiesced == \A p \in Procs : pc[p] \in {"done", "none", "r.blocked", "v.wait", "msg.wait"}
 
 C02_Quiescent ==
-    (Quiesced /\ closed = 0 /\ NoFaultYet) =>
+    (Quiesced /\ closed = 0 /\ NoFaultYet /\ ~ctxDone) =>
         /\ queue = <<>>
         /\ flushed = Len(tlog)
         /\ okset \subseteq Range(tlog)
@@ -703,6 +719,8 @@ C05_ActiveFirst == (reads > 0 \/ pc["V"] = "done") => actives = 1
 C05_CloseRetImpliesClosed == closeRet => closed = 1
 C05_WinnerDone == (Len(inactives) = 1) => (ctxDone /\ tclosed)
 C05_ReadsSequential == rinflight <= 1
+\* the read loop only ends through Close: once it has ended the channel is closed
+C05_LoopExitClosed == pc["R"] = "done" => closed = 1
 
 \* C07: once a sender write/flush or a read failed on an open channel (fatal = TRUE) and everything
 \* has come to rest, the channel is closed, with that error unless a Close call won before
